@@ -60,6 +60,24 @@ inline DenseMatrix parse_mat(const std::string& s)
     return m;
 }
 
+// the id range handed to the library: `sel=` (a shuffled subset of a larger id space, decoys in between) or 0..N-1;
+// callbacks are defined on ids, the data of ALL ids are in `alldata=` (else `data=`)
+inline std::vector<IndexType> ids(std::map<std::string, std::string>& f, int N)
+{
+    std::vector<IndexType> idx;
+    if (f.count("sel"))
+        for (long v : vh::parse_ints(f["sel"]))
+            idx.push_back((IndexType)v);
+    else
+        for (int i = 0; i < N; ++i)
+            idx.push_back(i);
+    return idx;
+}
+inline DenseMatrix all_data(std::map<std::string, std::string>& f)
+{
+    return parse_mat(f.count("alldata") ? f["alldata"] : f["data"]);
+}
+
 // what the eigen-observer hook saw during the last embed() call
 struct Observed
 {
